@@ -559,6 +559,12 @@ def run_shard(desc, ctx):
                 texts += ["a" + x + y + z + "b" for x, y, z in itertools.product(SPECIALS, repeat=3)]
             else:
                 texts += ["a" + "".join(rng.choice(SPECIALS) for _ in range(3)) + "b" for _ in range(300)]
+            # degenerate sizes: a text that IS one special sequence, every one-character text, two characters
+            singles = [x for x in SPECIALS] + [x.strip() for x in SPECIALS if x.strip()]
+            singles += [chr(c) for c in range(0x20, 0x7F) if chr(c) not in "\\{}"]
+            singles += [a + b for a in "^_>x" for b in "^_=\nx "]
+            ctx.count("one_and_two_character_texts", len(singles))
+            check_body_batch(ctx, singles, True, "degenerate texts")
             ctx.count("commands_covered", 0)
             for i in range(0, len(texts), 1000):
                 check_body_batch(ctx, texts[i:i + 1000], True, "adjacent specials")
